@@ -8,7 +8,8 @@
 (***************************************************************************)
 EXTENDS StateObs, Json, IOUtils, TLCExt
 
-VARIABLES l      \* position in the recorded trace
+VARIABLES l,     \* position in the recorded trace
+          lin    \* calls (cid) of the current run that have taken effect
 
 Rec == ndJsonDeserialize(IOEnv.TRACE)
 
@@ -16,9 +17,20 @@ Rec == ndJsonDeserialize(IOEnv.TRACE)
 TraceK == Rec[1].consts.K
 TraceShared == Rec[1].consts.Shared
 
-tvars == <<obsVars, l>>
+tvars == <<obsVars, l, lin>>
 
-TraceInit == ObsInit /\ l = 1
+TraceInit == ObsInit /\ l = 1 /\ lin = {}
+
+\* Linearization mode: a call the code ran as several critical sections (events sharing `cid`)
+\* takes effect at one of them, chosen here; with NDInvs non-empty, branches breaking one of the
+\* named invariants are dropped, and the trace is accepted iff some branch consumes it all.
+CONSTANT NDInvs
+ObsStutter == UNCHANGED <<oA, oLastW, oWoken, oWant, oPubN, oLatest, oCurId, oMaxOld, oClosed, oSenders, oReceivers>> /\ bad' = {}
+InvNamed(n) == CASE n = "C01" -> C01
+                 [] n = "C11" -> C11
+                 [] n = "C13" -> C13
+                 [] n = "C17" -> C17
+                 [] n = "C18" -> C18
 
 TraceNext ==
   /\ l <= Len(Rec)
@@ -31,7 +43,13 @@ TraceNext ==
           /\ oPubN' = 0 /\ oLatest' = 0 /\ oCurId' = 0 /\ oMaxOld' = 0
           /\ oClosed' = FALSE /\ oSenders' = 1 /\ oReceivers' = 1
           /\ bad' = {}
-     ELSE ObsStep(Rec[l])
+          /\ lin' = {}
+     ELSE IF "cid" \notin DOMAIN Rec[l] THEN ObsStep(Rec[l]) /\ UNCHANGED lin
+     ELSE \* one of several critical sections of one call: the call takes effect at one of them
+          \/ (Rec[l].cid \notin lin /\ ObsStep(Rec[l]) /\ lin' = lin \cup {Rec[l].cid})
+          \/ (Rec[l].cid \notin lin /\ ~Rec[l].last /\ ObsStutter /\ UNCHANGED lin)
+          \/ (Rec[l].cid \in lin /\ ObsStutter /\ UNCHANGED lin)
+  /\ \A n \in NDInvs : InvNamed(n)'
 
 TraceSpec == TraceInit /\ [][TraceNext]_tvars
 
